@@ -188,6 +188,8 @@ def discharge(prog, f, n, kind, pv):
         return None
     if kind == "vec":
         name = hir.callee_name(n) or n.get("method")
+        if name == "drain" and len(hir.call_args(n)) > 1 and "RangeFull" in (hir.peel(hir.call_args(n)[1]).get("ty") or ""):
+            return "G4: drain(..) over the full range is always in bounds"
         if name == "insert":
             i = hir.lit_value(hir.call_args(n)[1])
             if i == 0:
